@@ -77,6 +77,8 @@ type Schema struct {
 	Top    []*SNode
 	// augmenting module (optional): nodes with Module != "" are emitted there as augments
 	AugName string
+	// AugSub: the augment statements of the augmenting module are written in a submodule of it ("augs")
+	AugSub bool
 	// submodule (optional): the top-level nodes named in SubNodes are written in submodule SubName, which the main module includes;
 	// in data they are the main module's like any other
 	SubName  string
@@ -375,7 +377,14 @@ func (s *Schema) Yang() string {
 		// uses it and augments its own tree (see nodeutil/testdata/example-barmod.yang)
 		b.WriteString("  grouping g {\n")
 		for _, t := range s.Top {
+			if s.SubName != "" && s.SubNodes[t.Name] {
+				continue
+			}
 			t.yang(&b, "    ", "")
+		}
+		if s.SubName != "" {
+			// the rest of the grouping is written in the submodule
+			b.WriteString("    uses gs;\n")
 		}
 		b.WriteString("  }\n")
 	} else {
@@ -398,10 +407,18 @@ func (s *Schema) SubYang() string {
 	s.link()
 	var b strings.Builder
 	fmt.Fprintf(&b, "submodule %s {\n  belongs-to %s { prefix %s; }\n", s.SubName, s.Name, s.Prefix)
+	ind := "  "
+	if s.AugName != "" {
+		b.WriteString("  grouping gs {\n")
+		ind = "    "
+	}
 	for _, t := range s.Top {
 		if s.SubNodes[t.Name] {
-			t.yang(&b, "  ", "")
+			t.yang(&b, ind, "")
 		}
+	}
+	if s.AugName != "" {
+		b.WriteString("  }\n")
 	}
 	b.WriteString("}\n")
 	return b.String()
@@ -417,7 +434,15 @@ func (s *Schema) AugYang() string {
 	typedefPrefix = s.Prefix + ":"
 	defer func() { identBasePrefix = ""; typedefPrefix = "" }()
 	var b strings.Builder
-	fmt.Fprintf(&b, "module %s {\n  namespace \"urn:%s\";\n  prefix %s;\n  import %s { prefix %s; }\n  revision 2020-01-01;\n  uses %s:g;\n", s.AugName, s.AugName, s.AugName, s.Name, s.Prefix, s.Prefix)
+	fmt.Fprintf(&b, "module %s {\n  namespace \"urn:%s\";\n  prefix %s;\n  import %s { prefix %s; }\n", s.AugName, s.AugName, s.AugName, s.Name, s.Prefix)
+	if s.AugSub {
+		b.WriteString("  include augs;\n")
+	}
+	fmt.Fprintf(&b, "  revision 2020-01-01;\n  uses %s:g;\n", s.Prefix)
+	if s.AugSub {
+		b.WriteString("}\n")
+		fmt.Fprintf(&b, "submodule augs {\n  belongs-to %s { prefix %s; }\n  import %s { prefix %s; }\n", s.AugName, s.AugName, s.Name, s.Prefix)
+	}
 	s.Walk(func(n *SNode) {
 		if n.Module == "" || (n.Parent != nil && n.Parent.Module != "") {
 			return
@@ -456,12 +481,24 @@ func (s *Schema) Compile() error {
 		m, err = parser.LoadModuleFromString(nil, main)
 	} else {
 		aug := s.AugYang()
+		augSub := ""
+		if i := strings.Index(aug, "submodule augs {"); s.AugSub && i > 0 {
+			aug, augSub = aug[:i], aug[i:]
+		}
 		opener := func(name string, ext string) (io.Reader, error) {
 			switch name {
 			case s.Name:
 				return strings.NewReader(main), nil
 			case s.AugName:
 				return strings.NewReader(aug), nil
+			case "augs":
+				if augSub != "" {
+					return strings.NewReader(augSub), nil
+				}
+			case s.SubName:
+				if s.SubName != "" {
+					return strings.NewReader(s.SubYang()), nil
+				}
 			}
 			return nil, nil
 		}
@@ -553,6 +590,7 @@ type GenOpts struct {
 	KeyTypes     []string
 	Aug          bool // contribute some nodes from an augmenting module
 	Sub          bool // write some top-level nodes in a submodule (not together with Aug)
+	AugSub       bool // with Aug: the augments are written in a submodule of the augmenting module
 	Prefix       string // prefix of the main module ("" = its name, m)
 	Presence     bool
 	Wraps        bool // write some leaf types through a typedef, as a union member or as a leafref to a sibling
@@ -827,6 +865,7 @@ func GenSchema(r *rand.Rand, o GenOpts) *Schema {
 	s.Top = g.children(1, scope, false)
 	if o.Aug {
 		s.AugName = "aug"
+		s.AugSub = o.AugSub
 		// mark a few nodes (that are not keys and not inside marked nodes) as contributed by the augmenting module
 		var cands []*SNode
 		s.link()
@@ -873,7 +912,7 @@ func GenSchema(r *rand.Rand, o GenOpts) *Schema {
 			s.AugName = ""
 		}
 	}
-	if o.Sub && s.AugName == "" && len(s.Top) > 1 {
+	if o.Sub && len(s.Top) > 1 {
 		// nodes that name nothing of the main module (typedefs, identities, sibling leaves) may be written in the submodule
 		var stay, move []*SNode
 		for _, t := range s.Top {
@@ -893,6 +932,10 @@ func GenSchema(r *rand.Rand, o GenOpts) *Schema {
 				if o.Type != nil && o.Type.Wrap == "leafref" && o.Type.WrapTarget == t.Name {
 					free = false
 				}
+			}
+			if t.Module != "" {
+				// contributed by the augmenting module: not the main module's to write
+				free = false
 			}
 			if free && r.Intn(2) == 0 {
 				move = append(move, t)
